@@ -405,7 +405,7 @@ fn child(args: &Args, rep: &mut Report) {
 
 pub fn run(args: Args) -> ! {
     let mut rep = Report::new("C04", args.tier, args.seed);
-    rep.rule = "byte strings <= 8 KiB: raw random bytes biased to TOML punctuation, byte/line/digit mutants of generated and corpus documents (incl. invalid UTF-8), every truncation of every corpus document <= 400 bytes, 40 structure-aware extreme templates (400-digit numbers, huge exponents, long fractions, unterminated constructs, nesting) at generated sizes, untouched valid documents. Each input goes through 20 entry points (document/value/item/key parsers, serde deserializers from text, bytes and documents, value deserializers, the standalone date-time parser) and then Display, Debug, Clone, drop, into_mut, from_document, to_string / to_string_pretty and error rendering, in a build with debug assertions and overflow checks. Oracle: no panic (caught and shrunk), no death of the worker process (bisected), per-input time within 3 s + 1 ms/byte (else inconclusive). non-trivial = accepted or not rejected within the first 4 bytes; distinct by bytes".into();
+    rep.rule = "byte strings <= 8 KiB: raw random bytes biased to TOML punctuation, byte/line/digit mutants of generated and corpus documents (incl. invalid UTF-8), every truncation of every corpus document <= 400 bytes, 54 structure-aware extreme templates (400-digit numbers, huge exponents, long fractions, unterminated constructs, nesting) at generated sizes, untouched valid documents. Each input goes through 20 entry points (document/value/item/key parsers, serde deserializers from text, bytes and documents, value deserializers, the standalone date-time parser) and then Display, Debug, Clone, drop, into_mut, from_document, to_string / to_string_pretty and error rendering, in a build with debug assertions and overflow checks. Oracle: no panic (caught and shrunk), no death of the worker process (bisected), per-input time within 3 s + 1 ms/byte, and the worker marks a new input at least every 150 s (else the run ends inconclusive, exit 2, naming the inputs in flight). non-trivial = accepted or not rejected within the first 4 bytes; distinct by bytes".into();
     rep.assumptions = vec!["termination is only observed through a generous wall-clock budget; exceeding it is reported as inconclusive (exit 2), never as a violation".into()];
     if let Some(p) = &args.replay {
         let j = super::load_replay_any(p);
